@@ -646,3 +646,18 @@ def s_ref_ord(ip, st, fr, name, args, c, site):
     if isinstance(a, tuple) and isinstance(b, tuple):
         return one(ip.simplify_bool(st, T.mk_cmp(name.rsplit('::', 1)[1], a, b)))
     raise X.Unanalysable('ordering of non-scalar values through references', site)
+
+
+@S('std::boxed::Box::<T>::new_uninit')
+def s_new_uninit(ip, st, fr, name, args, c, site):
+    return one(X.Ref(X.Cell(X.Uninit()), ()))
+
+
+@S('std::boxed::box_assume_init_into_vec_unsafe')
+def s_box_into_vec(ip, st, fr, name, args, c, site):
+    v = deref_all(ip, st, args[0])
+    if isinstance(v, X.Uninit):
+        v = v.v
+    if isinstance(v, X.Tup):
+        return one(X.ListV([('one', ip.to_term(st, x)) for x in v.xs]))
+    raise X.Unanalysable('vec! of %r' % (v,), site)
